@@ -56,6 +56,10 @@ APIS = {
     'select-iterate': lambda c: list(selectors.select(c, pool.Cls)),
     'select-get': lambda c: list(selectors.select(c, pool.fb).get('x')),
     'select-tag-iterate': lambda c: list(selectors.select(c, tag=pool.TagA)),
+    'select-get(mutable default)': lambda c: [list(selectors.select(c, with_mutable_defaults).get(a))
+                                              for a in ('layer_sizes', 'options', 'names', 'rate')],
+    'getattr of every parameter': lambda c: [[getattr(b, nm, None) for nm in b.__signature_info__.parameters]
+                                             for b in canon.mutable_ids(c)[1] if isinstance(b, fdl.Buildable)],
     'grep': _quiet(lambda c: grep_lib.grep(c, 'a')),
     'list_tags': tagging.list_tags,
     '==': lambda c: c == copy.deepcopy(c),
@@ -166,12 +170,25 @@ def callable_mutating_its_arguments():
                     also=fdl.Config(normalise_in_place, shared, options={}))
 
 
+def with_mutable_defaults(layer_sizes=[128, 64], options={'act': 'relu'}, names={'n'}, rate=0.1):   # pylint: disable=dangerous-default-value
+  return ('model', tuple(layer_sizes), tuple(sorted(options.items())), tuple(sorted(names)), rate)
+
+
+def unset_mutable_defaults():
+  """Arguments that are not set, have list / dict / set defaults and are reachable through a tag."""
+  model = fdl.Config(with_mutable_defaults)
+  for arg in ('layer_sizes', 'options', 'names', 'rate'):
+    fdl.add_tag(model, arg, pool.TagA)
+  return fdl.Config(pool.fc, model, q=[model, fdl.Partial(with_mutable_defaults, rate=0.5)])
+
+
 def get_factories():
   P = dict(pool.make_pool())
   P['long-values'] = long_config
   P['partial-tree-shared'] = partial_tree
   P['tags-without-values'] = tags_only
   P['callable-mutating-its-arguments'] = callable_mutating_its_arguments
+  P['unset-arguments-with-mutable-defaults'] = unset_mutable_defaults
   return P
 
 
